@@ -152,7 +152,11 @@ class Maximizer(FormulaStep):
         """
         val2 = eval_stack.pop()
         val1 = eval_stack.pop()
-        res = max(val1, val2)
+        if math.isnan(val1) or math.isnan(val2):
+            # `max(x, nan)` returns `x`: propagate missing values whatever their position.
+            res = math.nan
+        else:
+            res = max(val1, val2)
         eval_stack.append(res)
 
 
@@ -175,7 +179,11 @@ class Minimizer(FormulaStep):
         """
         val2 = eval_stack.pop()
         val1 = eval_stack.pop()
-        res = min(val1, val2)
+        if math.isnan(val1) or math.isnan(val2):
+            # `min(x, nan)` returns `x`: propagate missing values whatever their position.
+            res = math.nan
+        else:
+            res = min(val1, val2)
         eval_stack.append(res)
 
 
